@@ -469,8 +469,22 @@ def edit_dangling_ref(d, rng):
 def edit_dup_inherited(d, rng):
     defs = d.setdefault("definitions", {})
     defs["ParentX"] = {"type": "object", "properties": {"shared": {"type": "string"}}}
-    defs["ChildX"] = {"allOf": [{"$ref": "#/definitions/ParentX"}, {"type": "object", "properties": {"shared": {"type": "string"}}}]}
-    return "child redeclares the property shared of its ancestor"
+    # the ancestor is named directly, through a definition that is only a reference to it, through two of them, or is the
+    # ancestor of the ancestor
+    v = next_variant("dup_inherited", 4)
+    target = "#/definitions/ParentX"
+    if v == 1:
+        defs["AliasX"] = {"$ref": "#/definitions/ParentX"}
+        target = "#/definitions/AliasX"
+    elif v == 2:
+        defs["AliasX"] = {"$ref": "#/definitions/ParentX"}
+        defs["AliasY"] = {"$ref": "#/definitions/AliasX"}
+        target = "#/definitions/AliasY"
+    elif v == 3:
+        defs["MiddleX"] = {"allOf": [{"$ref": "#/definitions/ParentX"}, {"type": "object", "properties": {"other": {"type": "string"}}}]}
+        target = "#/definitions/MiddleX"
+    defs["ChildX"] = {"allOf": [{"$ref": target}, {"type": "object", "properties": {"shared": {"type": "string"}}}]}
+    return "child redeclares the property shared of its ancestor (%s)" % ["direct", "through an alias", "through two aliases", "grandparent"][v]
 
 
 def edit_circular(d, rng):
